@@ -14,6 +14,8 @@ use chess::move_generator::MoveGenerator;
 use crate::eng::*;
 use crate::gen::{choose_move, choose_start, Policy, StartKind, TERMINAL_FENS};
 use crate::model::{Mv, Pos, Side};
+#[allow(unused_imports)]
+use crate::model::P;
 use crate::plan::{Op, Outcome, Plan, Stats, Violation};
 use crate::prng::{mix, Digest, Rng};
 use crate::{set_phase, Tier};
@@ -102,6 +104,43 @@ pub fn gen_plan(property: &str, seed: u64, index: u64, tier: Tier) -> Plan {
             lru = *rng.pick(&[7usize, 64, 4096]);
             // >= 20% terminal / near-terminal starts
             let roll = rng.below(10);
+            if index % 10 == 7 {
+                // late game: a long quiet stretch takes the half-move clock to and past 100, or a
+                // registered shuffle reaches a third occurrence; a legal move must still be returned
+                let (_, s) = choose_start(&mut rng, &[(StartKind::Endgame, 3), (StartKind::Initial, 1), (StartKind::Special, 1)]);
+                let repetition = rng.chance(1, 2);
+                let plies = if repetition { rng.range(9, 16) } else { rng.range(98, 112) };
+                let mut pos = s.clone();
+                let mut own: [Option<Mv>; 2] = [None, None];
+                for n in 0..plies {
+                    let legal = pos.legal_moves();
+                    if legal.is_empty() {
+                        break;
+                    }
+                    let side = pos.stm as usize;
+                    let k = choose_move(&mut rng, &pos, &legal, if repetition { Policy::Shuffle } else { Policy::Frozen }, own[side].as_ref());
+                    ops.push(Op::Make(k as u32));
+                    own[side] = Some(legal[k]);
+                    pos = pos.make(&legal[k]);
+                    if n + 6 >= plies {
+                        ops.push(Op::Search(1));
+                    }
+                }
+                knobs.insert("via_game".to_string(), 0);
+                knobs.insert("game_depth".to_string(), 1);
+                return Plan {
+                    property: property.to_string(),
+                    scenario: if repetition { "registered-shuffle".to_string() } else { "long-quiet-stretch".to_string() },
+                    seed,
+                    index,
+                    start_fen: s.to_fen(),
+                    lru,
+                    register: repetition,
+                    knobs,
+                    ops,
+                    schedule: String::new(),
+                };
+            }
             if roll < 2 {
                 start = Pos::from_fen(*rng.pick(&TERMINAL_FENS[..])).unwrap();
                 scenario = "terminal-start";
@@ -341,6 +380,9 @@ pub fn exec(plan: &Plan) -> Outcome {
     let mut gen = MoveGenerator::new();
     let mut ctx = SearchContext::new(run_depth);
     let mut applied: Vec<ChessMove> = Vec::new();
+    if plan.register && game.is_none() {
+        board.count_current_position();
+    }
 
     for (i, op) in plan.ops.iter().enumerate() {
         let cur = model.last().unwrap().clone();
@@ -371,6 +413,15 @@ pub fn exec(plan: &Plan) -> Outcome {
                     break;
                 }
                 stats.bump("op-make");
+                if plan.register && game.is_none() {
+                    let c = board.count_current_position();
+                    if c >= 3 {
+                        stats.bump("probe/search-after-third-registered-occurrence");
+                    }
+                }
+                if next.half >= 100 {
+                    stats.bump("probe/search-history-with-halfmove-100-or-more");
+                }
                 applied.push(em);
                 model.push(next);
             }
@@ -381,6 +432,9 @@ pub fn exec(plan: &Plan) -> Outcome {
                 };
                 model.pop();
                 set_phase("undo");
+                if plan.register && game.is_none() {
+                    board.uncount_current_position();
+                }
                 let target: &mut Board = match game.as_mut() {
                     Some(g) => g.board_mut(),
                     None => &mut board,
